@@ -18,9 +18,10 @@ Inductive lim_op :=
   | LRemove (a : bytes).
 
 (** handleLogin end to end.  [kind]: 0 well-formed request, 1 undecodable
-    body.  [status]: HTTP status; [retry]: Retry-After (seconds) or -1;
+    body.  [addr]: the TCP peer; [hdr]: the address the request names in a
+    proxy header, if any; [trusted]: whether it lies inside trusted_proxies.  [status]: HTTP status; [retry]: Retry-After (seconds) or -1;
     [nsess]: number of sessions afterwards. *)
-Record login_step := { ls_kind : Z; ls_now : Z; ls_addr : bytes; ls_ok : bool;
+Record login_step := { ls_kind : Z; ls_now : Z; ls_addr : bytes; ls_hdr : option bytes; ls_trusted : bool; ls_ok : bool;
                        ls_status : Z; ls_retry : Z; ls_nsess : N; ls_tab : ltable }.
 
 Inductive sess_op :=
@@ -86,7 +87,8 @@ Fixpoint login_replay (c : rl_conf) (tol : Z) (s : rl_state) (ns : N) (i : Z) (l
         if (ls_status st =? 400) && (ls_nsess st =? ns)%N && ltab_ok tol s (ls_tab st)
         then login_replay c tol s ns (i + 1) l' else i
       else
-        let e := {| a_now := ls_now st; a_now2 := ls_now st; a_addr := ls_addr st; a_ok := ls_ok st |} in
+        let e := {| a_now := ls_now st; a_now2 := ls_now st; a_addr := ls_addr st; a_hdr := ls_hdr st;
+                   a_trusted := ls_trusted st; a_ok := ls_ok st |} in
         let '(s', o) := login c e s in
         let ns' := match o with L200 => (ns + 1)%N | _ => ns end in
         let retry_ok := match o with
@@ -153,7 +155,8 @@ Fixpoint login_outs (c : rl_conf) (s : rl_state) (l : list login_step) : list (Z
   | st :: l' =>
       if ls_kind st =? 1 then (400, -1) :: login_outs c s l'
       else
-        let e := {| a_now := ls_now st; a_now2 := ls_now st; a_addr := ls_addr st; a_ok := ls_ok st |} in
+        let e := {| a_now := ls_now st; a_now2 := ls_now st; a_addr := ls_addr st; a_hdr := ls_hdr st;
+                   a_trusted := ls_trusted st; a_ok := ls_ok st |} in
         let '(s', o) := login c e s in (out_status o, out_retry o) :: login_outs c s' l'
   end.
 
